@@ -230,3 +230,185 @@ Section Trav.
     destruct (events slug (set_sp true o) t); reflexivity.
   Qed.
 End Trav.
+
+(* ---------------------------------------------------------------- bytes *)
+(* serialisation that skips the bytes of every SpAttr; the Cr decisions (Context::cr looks at the
+   last byte written) are taken from the FULL chunk, i.e. exactly as in the run with the option on *)
+Definition ser_attr_nosp (a : attr) : bytes :=
+  match a with SpAttr _ => [] | _ => ser_attr a end.
+
+Definition ser_ev_nosp (e : ev) : bytes :=
+  match e with
+  | Open t a => [x3c] ++ t ++ flat_map ser_attr_nosp a ++ [x3e]
+  | Void t a => [x3c] ++ t ++ flat_map ser_attr_nosp a ++ [x20; x2f; x3e]
+  | _ => ser_ev e
+  end.
+
+Fixpoint ser_chunks_nosp (last_lf : bool) (evs : list ev) : list bytes :=
+  match evs with
+  | [] => []
+  | Cr :: r => if last_lf then ser_chunks_nosp last_lf r else [x0a] :: ser_chunks_nosp true r
+  | e :: r => ser_ev_nosp e :: ser_chunks_nosp (ends_lf last_lf (ser_ev e)) r
+  end.
+
+Definition ser_nosp (evs : list ev) : bytes := List.concat (ser_chunks_nosp true evs).
+
+Lemma attrs_nosp a : flat_map ser_attr (filter not_sp a) = flat_map ser_attr_nosp a.
+Proof.
+  induction a as [|x r IH]; [reflexivity|].
+  destruct x; cbn [filter not_sp flat_map ser_attr_nosp]; rewrite IH; reflexivity.
+Qed.
+
+Lemma ser_ev_erase e : ser_ev (erase_sp e) = ser_ev_nosp e.
+Proof. destruct e; cbn [erase_sp ser_ev ser_ev_nosp]; rewrite ?attrs_nosp; reflexivity. Qed.
+
+Lemma ends_lf_snoc p l b : ends_lf p (l ++ [b]) = beqb b x0a.
+Proof.
+  unfold ends_lf. rewrite last_last. destruct (l ++ [b]) eqn:E; [|reflexivity].
+  destruct l; discriminate E.
+Qed.
+
+(* an SpAttr never ends a chunk: a tag chunk ends with GT whatever its attributes are *)
+Lemma ends_lf_erase p e : ends_lf p (ser_ev (erase_sp e)) = ends_lf p (ser_ev e).
+Proof.
+  destruct e; try reflexivity; cbn [erase_sp ser_ev].
+  - change ([x3c] ++ tag ++ flat_map ser_attr (filter not_sp a) ++ [x3e])
+      with (x3c :: tag ++ flat_map ser_attr (filter not_sp a) ++ [x3e]).
+    change ([x3c] ++ tag ++ flat_map ser_attr a ++ [x3e]) with (x3c :: tag ++ flat_map ser_attr a ++ [x3e]).
+    rewrite !app_comm_cons, !app_assoc, !ends_lf_snoc. reflexivity.
+  - change [x20; x2f; x3e] with ([x20; x2f] ++ [x3e]).
+    change ([x3c] ++ tag ++ flat_map ser_attr (filter not_sp a) ++ [x20; x2f] ++ [x3e])
+      with (x3c :: tag ++ flat_map ser_attr (filter not_sp a) ++ [x20; x2f] ++ [x3e]).
+    change ([x3c] ++ tag ++ flat_map ser_attr a ++ [x20; x2f] ++ [x3e])
+      with (x3c :: tag ++ flat_map ser_attr a ++ [x20; x2f] ++ [x3e]).
+    rewrite !app_comm_cons, !app_assoc, !ends_lf_snoc. reflexivity.
+Qed.
+
+Lemma ser_chunks_erase : forall evs p, ser_chunks p (map erase_sp evs) = ser_chunks_nosp p evs.
+Proof.
+  induction evs as [|e r IH]; intro p; [reflexivity|].
+  destruct e; cbn [map erase_sp ser_chunks ser_chunks_nosp];
+    try (rewrite IH; reflexivity).
+  - rewrite <- (ends_lf_erase p (Open tag a)). cbn [erase_sp]. rewrite IH.
+    rewrite <- ser_ev_erase. reflexivity.
+  - rewrite <- (ends_lf_erase p (Void tag a)). cbn [erase_sp]. rewrite IH.
+    rewrite <- ser_ev_erase. reflexivity.
+  - destruct p; rewrite IH; reflexivity.
+Qed.
+
+Theorem ser_erase evs : ser (map erase_sp evs) = ser_nosp evs.
+Proof. unfold ser, ser_nosp. rewrite ser_chunks_erase. reflexivity. Qed.
+
+(* the same as a deletion of marked byte segments: `segs` cuts `ser evs` into segments, the ones
+   flagged true being exactly the serialised SpAttr attributes; deleting the flagged segments gives
+   the serialisation of the erased events *)
+Definition attr_seg (a : attr) : bool * bytes :=
+  (match a with SpAttr _ => true | _ => false end, ser_attr a).
+
+Definition ev_segs (e : ev) : list (bool * bytes) :=
+  match e with
+  | Open t a => (false, [x3c] ++ t) :: map attr_seg a ++ [(false, [x3e])]
+  | Void t a => (false, [x3c] ++ t) :: map attr_seg a ++ [(false, [x20; x2f; x3e])]
+  | _ => [(false, ser_ev e)]
+  end.
+
+Fixpoint segs (last_lf : bool) (evs : list ev) : list (bool * bytes) :=
+  match evs with
+  | [] => []
+  | Cr :: r => if last_lf then segs last_lf r else (false, [x0a]) :: segs true r
+  | e :: r => ev_segs e ++ segs (ends_lf last_lf (ser_ev e)) r
+  end.
+
+Definition seg_bytes (l : list (bool * bytes)) : bytes := flat_map snd l.
+Definition unflagged (l : list (bool * bytes)) : list (bool * bytes) := filter (fun s => negb (fst s)) l.
+
+Lemma sb_cons s l : seg_bytes (s :: l) = snd s ++ seg_bytes l.
+Proof. reflexivity. Qed.
+Lemma sb_app a b : seg_bytes (a ++ b) = seg_bytes a ++ seg_bytes b.
+Proof. apply flat_map_app. Qed.
+Lemma uf_app a b : unflagged (a ++ b) = unflagged a ++ unflagged b.
+Proof. apply filter_app. Qed.
+Lemma uf_false b l : unflagged ((false, b) :: l) = (false, b) :: unflagged l.
+Proof. reflexivity. Qed.
+Lemma uf_true b l : unflagged ((true, b) :: l) = unflagged l.
+Proof. reflexivity. Qed.
+
+Lemma attr_segs_all a : seg_bytes (map attr_seg a) = flat_map ser_attr a.
+Proof.
+  induction a as [|x r IH]; [reflexivity|].
+  cbn [map flat_map]. rewrite sb_cons, IH. reflexivity.
+Qed.
+
+Lemma attr_segs_keep a : seg_bytes (unflagged (map attr_seg a)) = flat_map ser_attr_nosp a.
+Proof.
+  induction a as [|x r IH]; [reflexivity|].
+  destruct x; cbn [map flat_map ser_attr_nosp]; unfold attr_seg at 1; rewrite ?uf_false, ?uf_true, ?sb_cons, IH; reflexivity.
+Qed.
+
+Lemma ev_segs_all e : seg_bytes (ev_segs e) = ser_ev e.
+Proof.
+  destruct e; cbn [ev_segs ser_ev]; rewrite ?sb_cons, ?sb_app, ?attr_segs_all, ?sb_cons; cbn [snd seg_bytes flat_map];
+    rewrite <- ?app_assoc, ?app_nil_r; reflexivity.
+Qed.
+
+Lemma ev_segs_keep e : seg_bytes (unflagged (ev_segs e)) = ser_ev_nosp e.
+Proof.
+  destruct e; cbn [ev_segs ser_ev_nosp ser_ev]; rewrite ?uf_false, ?uf_app, ?uf_false, ?sb_cons, ?sb_app, ?attr_segs_keep, ?sb_cons;
+    cbn [snd seg_bytes unflagged filter flat_map];
+    rewrite <- ?app_assoc, ?app_nil_r; reflexivity.
+Qed.
+
+Lemma segs_all : forall evs p, seg_bytes (segs p evs) = List.concat (ser_chunks p evs).
+Proof.
+  induction evs as [|e r IH]; intro p; [reflexivity|].
+  destruct e; cbn [segs ser_chunks]; try (destruct p); cbn [concat];
+    rewrite ?sb_app, ?sb_cons, ?IH, ?ev_segs_all; reflexivity.
+Qed.
+
+Lemma segs_keep : forall evs p, seg_bytes (unflagged (segs p evs)) = List.concat (ser_chunks_nosp p evs).
+Proof.
+  induction evs as [|e r IH]; intro p; [reflexivity|].
+  destruct e; cbn [segs ser_chunks_nosp]; try (destruct p); cbn [concat];
+    rewrite ?uf_app, ?uf_false, ?sb_app, ?sb_cons, ?IH, ?ev_segs_keep; reflexivity.
+Qed.
+
+Definition flagged_is_sp (s : bool * bytes) : Prop :=
+  fst s = true -> exists sp, snd s = ser_attr (SpAttr sp).
+
+Lemma segs_flagged : forall evs p, Forall flagged_is_sp (segs p evs).
+Proof.
+  assert (HA : forall a, Forall flagged_is_sp (map attr_seg a)).
+  { induction a as [|x r IH]; constructor; [|exact IH].
+    destruct x; intro H; try discriminate H. eexists; reflexivity. }
+  assert (HF : forall b, flagged_is_sp (false, b)) by (intros b H; discriminate H).
+  assert (HE : forall e, Forall flagged_is_sp (ev_segs e)).
+  { destruct e; cbn [ev_segs];
+      try (constructor; [apply HF|constructor]);
+      (constructor; [apply HF | apply Forall_app; split; [apply HA | constructor; [apply HF | constructor]]]). }
+  induction evs as [|e r IH]; intro p; [constructor|].
+  destruct e; cbn [segs];
+    try (apply Forall_app; split; [apply HE | apply IH]).
+  destruct p; [apply IH | constructor; [apply HF | apply IH]].
+Qed.
+
+(* the byte-level statement: the output with the option off is the output with the option on with
+   the flagged segments deleted, every flagged segment is one serialised data-sourcepos attribute *)
+Theorem html_sp_deletion slug o t evs :
+  events slug (set_sp true o) t = Ok evs ->
+  html slug (set_sp true o) t = Ok (seg_bytes (segs true evs)) /\
+  html slug (set_sp false o) t = Ok (seg_bytes (unflagged (segs true evs))) /\
+  Forall flagged_is_sp (segs true evs).
+Proof.
+  intro H. split; [|split].
+  - unfold html. rewrite H. cbn [bind]. rewrite segs_all. reflexivity.
+  - rewrite html_sp_bytes, H. cbn [res_map]. rewrite ser_erase, segs_keep. reflexivity.
+  - apply segs_flagged.
+Qed.
+
+(* failures are the same with the option on and off *)
+Theorem html_sp_fail slug o t :
+  is_ok (html slug (set_sp false o) t) = is_ok (html slug (set_sp true o) t).
+Proof.
+  unfold html. rewrite html_sp_events.
+  destruct (events slug (set_sp true o) t); reflexivity.
+Qed.
